@@ -160,12 +160,56 @@ class ExprParser:
         k, v = self.peek()
         return v.lower() if k == "id" else v
 
+    # a bare bit-string literal takes its type from the other operand (overload resolution)
+    def kind_of(self, e):
+        k = e[0]
+        if k == "lit":
+            return e[1][1] if e[1][0] == "V" and len(e[1]) < 5 else None
+        if k == "name":
+            o = self.scope.lookup_obj(e[1])
+            if o is not None and o[1].ty.kind == "vec":
+                return o[1].ty.vk
+            if o is not None and o[1].ty.kind == "arr" and o[1].ty.elem.kind == "vec":
+                return "arr:" + o[1].ty.elem.vk
+            return None
+        if k == "slice":
+            return self.kind_of(e[1])
+        if k == "idx":
+            kk = self.kind_of(e[1])
+            return kk[4:] if kk and kk.startswith("arr:") else None
+        if k == "f1":
+            return {"FConvUns": "uns", "FConvSgn": "sgn", "FConvSlv": "slv", "FQualUns": "uns", "FQualSgn": "sgn",
+                    "FQualSlv": "slv"}.get(e[1])
+        if k == "f2":
+            if e[1] in ("FResize", "FShl", "FShr"):
+                return self.kind_of(e[2])
+            return {"FToUnsigned": "uns", "FToSigned": "sgn"}.get(e[1])
+        if k == "un":
+            return self.kind_of(e[2])
+        if k == "bin" and e[1] in ("OAdd", "OSub", "OMul", "ODiv", "OMod", "ORem", "OAnd", "OOr", "OXor"):
+            return self.kind_of(e[2]) or self.kind_of(e[3])
+        return None
+
+    def retag(self, a, b):
+        def bare(x):
+            return x[0] == "lit" and x[1][0] == "V" and len(x[1]) == 5
+        if bare(a) and not bare(b):
+            kb = self.kind_of(b)
+            if kb in ("uns", "sgn"):
+                a = ("lit", ("V", kb, a[1][2], a[1][3]))
+        elif bare(b) and not bare(a):
+            ka = self.kind_of(a)
+            if ka in ("uns", "sgn"):
+                b = ("lit", ("V", ka, b[1][2], b[1][3]))
+        return a, b
+
     # expression ::= relation { logop relation }
     def expression(self):
         e = self.relation()
         while self.peek_kw() in ("and", "or", "xor"):
             op = self.next()[1].lower()
             r = self.relation()
+            e, r = self.retag(e, r)
             e = ("bin", BINOPS[op], e, r)
         return e
 
@@ -174,6 +218,7 @@ class ExprParser:
         if self.peek()[1] in ("=", "/=", "<", "<=", ">", ">="):
             op = self.next()[1]
             r = self.simple()
+            e, r = self.retag(e, r)
             e = ("bin", BINOPS[op], e, r)
         return e
 
@@ -190,6 +235,8 @@ class ExprParser:
         while self.peek()[1] in ("+", "-", "&"):
             op = self.next()[1]
             r = self.term()
+            if op != "&":
+                e, r = self.retag(e, r)
             e = ("bin", BINOPS[op], e, r)
         return e
 
@@ -221,7 +268,7 @@ class ExprParser:
         k, v = self.next()
         if k == "str":
             bits = v[1:-1]
-            return ("lit", ("V", "slv", len(bits), int(bits, 2) if bits else 0))
+            return ("lit", ("V", "slv", len(bits), int(bits, 2) if bits else 0, "bare"))
         if k == "chr":
             return ("lit", ("L", v[1] == "1"))
         if k == "int":
@@ -312,6 +359,15 @@ def parse_expr(s, scope, line=None):
     if not p.at_end():
         raise Unparsed(f"trailing tokens {p.t[p.i:]}", line or s)
     return e
+
+
+def retag_for_target(scope, tgt_expr, rhs):
+    """a bare bit-string literal assigned to a vector object takes the object's type"""
+    if rhs[0] == "lit" and rhs[1][0] == "V" and len(rhs[1]) == 5:
+        k = ExprParser([], scope, "").kind_of(tgt_expr)
+        if k in ("uns", "sgn"):
+            return ("lit", ("V", k, rhs[1][2], rhs[1][3]))
+    return rhs
 
 
 def expr_to_target(e, line):
@@ -655,9 +711,9 @@ class LibraryParser:
             return
         k = split_top(l, "<=")
         if k > 0 and l.endswith(";"):
-            tgt = expr_to_target(parse_expr(l[:k], ent.scope, l), l)
-            e = parse_expr(l[k + 2:-1], ent.scope, l)
-            ent.conc.append(("assign", tgt, e))
+            te = parse_expr(l[:k], ent.scope, l)
+            e = retag_for_target(ent.scope, te, parse_expr(l[k + 2:-1], ent.scope, l))
+            ent.conc.append(("assign", expr_to_target(te, l), e))
             return
         raise Unparsed("unsupported concurrent statement", l)
 
@@ -782,13 +838,13 @@ class LibraryParser:
                 raise Unparsed("unsupported statement", l)
             k = split_top(l, ":=")
             if k > 0:
-                tgt = expr_to_target(parse_expr(l[:k], scope, l), l)
-                out.append(("var", tgt, parse_expr(l[k + 2:-1], scope, l)))
+                te = parse_expr(l[:k], scope, l)
+                out.append(("var", expr_to_target(te, l), retag_for_target(scope, te, parse_expr(l[k + 2:-1], scope, l))))
                 continue
             k = split_top(l, "<=")
             if k > 0:
-                tgt = expr_to_target(parse_expr(l[:k], scope, l), l)
-                out.append(("sig", tgt, parse_expr(l[k + 2:-1], scope, l)))
+                te = parse_expr(l[:k], scope, l)
+                out.append(("sig", expr_to_target(te, l), retag_for_target(scope, te, parse_expr(l[k + 2:-1], scope, l))))
                 continue
             raise Unparsed("unsupported statement", l)
 
